@@ -106,10 +106,55 @@ Definition clock_init (t0 d : Z) : cstate := mkC t0 d d MNew 0.
 Definition clock_run (out inn : rate) (cb : list (Z * Z)) (d0 t0 : Z) (rds : list (Z * option Z)) : list Z * cres :=
   clock_steps out inn cb (script_dmin d0 cb rds) rds (clock_init t0 d0).
 
+(** ---- the same clock with the multiplier step in closed form ([mult_next_x]) ----
+    ClockRunProofs.clock_run_x_eq proves [clock_run_x = clock_run] for rates below 10^8; the harness evaluates this
+    variant because the `round(pos, 8)` arithmetic of [mult_next] costs ~10x more per tick inside coqc. *)
+Section RunX.
+  Variables (out inn : rate).
+  Variable cb : list (Z * Z).
+  Fixpoint burst_x (fuel : nat) (t ntd : Z) (s : cstate) : cstate * cres :=
+    if t - c_clock0 s >=? ntd then
+      match fuel with
+      | O => (s, CFuel)
+      | S f =>
+          let '(r, m') := mult_next_x out inn (c_mult s) in
+          let s0 := mkC (c_clock0 s) (c_dur s) (c_orig s) m' (c_total s) in
+          match r with
+          | MTicks n =>
+              let s1 := deliver cb (Z.to_nat n) s0 in
+              burst_x f t ntd (mkC (c_clock0 s1 + c_dur s1) (c_orig s1) (c_orig s1) (c_mult s1) (c_total s1))
+          | MClockErr => (s0, CClockErr)
+          | MStop => (s0, CStopIter)
+          | MFuel => (s0, CFuel)
+          end
+      end
+    else (s, COk).
+  Definition clock_step_x (dmin : Z) (rd : Z * option Z) (s : cstate) : cstate * cres :=
+    let '(t, chg) := rd in
+    let s' := match chg with Some d => set_tempo d s | None => s end in
+    burst_x (Z.to_nat ((t - c_clock0 s') / dmin) + 1) t (c_dur s') s'.
+  Fixpoint clock_steps_x (dmin : Z) (rds : list (Z * option Z)) (s : cstate) : list Z * cres :=
+    match rds with
+    | [] => ([], COk)
+    | rd :: rest =>
+        let '(s', r) := clock_step_x dmin rd s in
+        match r with
+        | COk => let '(more, r') := clock_steps_x dmin rest s' in (c_total s' :: more, r')
+        | _ => ([c_total s'], r)
+        end
+    end.
+End RunX.
+Definition clock_run_x (out inn : rate) (cb : list (Z * Z)) (d0 t0 : Z) (rds : list (Z * option Z)) : list Z * cres :=
+  clock_steps_x out inn cb (script_dmin d0 cb rds) rds (clock_init t0 d0).
+
 Definition cres_code (r : cres) : Z := match r with COk => 0 | CClockErr => -1 | CStopIter => -2 | CFuel => -3 end.
 
 (** what the harness compares: cumulative counts and the way the run ended *)
 Definition clock_ok (out inn : rate) (cb : list (Z * Z)) (d0 t0 : Z) (rds : list (Z * option Z))
            (counts : list Z) (code : Z) : bool :=
   let '(c, r) := clock_run out inn cb d0 t0 rds in
+  list_eqb Z.eqb c counts && (cres_code r =? code).
+Definition clock_ok_x (out inn : rate) (cb : list (Z * Z)) (d0 t0 : Z) (rds : list (Z * option Z))
+           (counts : list Z) (code : Z) : bool :=
+  let '(c, r) := clock_run_x out inn cb d0 t0 rds in
   list_eqb Z.eqb c counts && (cres_code r =? code).
